@@ -93,6 +93,18 @@ func (n *vsNode) openSingle(bootstrap bool) error {
 	return n.s.raft.Barrier(15 * time.Second).Error()
 }
 
+// restart stops the node and starts it again as a new process would: a fresh Store object (and listener) on
+// the same directory with the same id.  A single-voter node elects itself whatever its address.
+func (n *vsNode) restart() error {
+	if err := n.s.Close(true); err != nil {
+		return err
+	}
+	n.ln.Close()
+	m := vsNewNode(n.dir, n.id)
+	n.s, n.ln = m.s, m.ln
+	return n.openSingle(false)
+}
+
 func (n *vsNode) exec(stmts []string) (uint64, error) {
 	rs, idx, err := n.s.Execute(context.Background(), executeRequestFromStrings(stmts, false, true))
 	if err != nil {
